@@ -113,10 +113,10 @@ void splinetable<Alloc>::convolve(const uint32_t dim, const double* conv_knots, 
 	 * let the new table extend to the limit of support. Otherwise,
 	 * retain only full support.
 	 */
-	if (extents[dim][0] < this->knots[dim][order[dim]])
-		extents[dim][0] = rho[0];
-	else
-		extents[dim][0] = rho[convorder];
+	//(recorded once the new arrays are in place, so that a failure to obtain
+	//them leaves the table unchanged)
+	const double new_lower_extent = (extents[dim][0] < this->knots[dim][order[dim]]) ?
+		rho[0] : rho[convorder];
 	
 	//In case we are using an allocator with limited total memory available
 	//we need to avoid fragmentation. To do this, we need to deallocate all
@@ -162,6 +162,8 @@ void splinetable<Alloc>::convolve(const uint32_t dim, const double* conv_knots, 
 		release_storage();
 		throw;
 	}
+	
+	extents[dim][0] = new_lower_extent;
 	
 	/*
 	 * NB: A monotonic function remains monotonic after convolution
